@@ -85,6 +85,31 @@ def generate(rng, tier, seed):
                            lambda rep, i=i, want=want: None if rep[i] == want else f"specification says {rep[i][:100]}")
                 se.setkbpk(rb(rng, rng.choice(ksizes)))
             yield c
+        for _ in range(3 * reps):
+            # one KeyBlock object driven across version families (variant / TDES-CMAC / AES-CMAC) under one KBPK: by assigning
+            # version_id and by unwrapping a genuine block of another version; every wrap must be valid per the specification
+            c = Case(f"{ver}:reused-object-across-versions", {})
+            kbpk = rb(rng, rng.choice([16, 24]))
+            se = Session(c, kbpk, make_header(rng, ver, rand_blocks(rng, 1)))
+            others = [v for v in VERS if v != ver]
+            rng.shuffle(others)
+            for v in [ver] + others[: rng.choice([1, 2, 3])]:
+                if v != ver:
+                    if rng.random() < 0.5:
+                        se.set(0, v)
+                    else:
+                        g = tr31.wrap(kbpk, make_header(rng, v, rand_blocks(rng, rng.choice([0, 1]))), rb(rng, 16))
+                        u = se.unwrap(g)
+                        if not u.ok:
+                            c.fail(f"a genuine version {v} block is rejected by an object that handled version {ver} before: {u.exc!r}")
+                key = rb(rng, rng.choice([8, 16, 24]))
+                w = se.wrap(key, None)
+                if w.ok:
+                    i = c.line(f"spec.tr31_unwrap\t{enc_b(kbpk)}\t{enc_s(w.value)}")
+                    want = "ok\t" + enc_header(se.kb.header) + "\t" + enc_b(key)
+                    c.pred("block wrapped after a version switch on the same object is valid per the specification",
+                           lambda rep, i=i, want=want: None if rep[i] == want else f"specification says {rep[i][:100]}")
+            yield c
         for ksize in ksizes:
             for _ in range(6 * reps):
                 kbpk = rb(rng, ksize)
